@@ -292,6 +292,10 @@ def run_op(line, env):
             fr = p.value(); ch = p.value(); c = p.value()
             u = Buffer(fr, ch, s, None, c)
             env['bufs'].append(u); return f'ok u{u.bufnum}'
+        if op == 'bufnc':
+            fr = p.value(); ch = p.value(); c = p.value()
+            u = Buffer(fr, ch, s, None, c, cache=False)
+            env['bufs'].append(u); return f'ok u{u.bufnum}'
         if op == 'bufx':
             fr = p.value(); ch = p.value(); num = p.value(); c = p.value()
             u = Buffer(fr, ch, s, num, c)
@@ -352,7 +356,7 @@ def run_op(line, env):
         return f'exc:{type(e).__name__}'
 
 
-BUF_ALLOC_OPS = ('buf', 'bufx', 'bufna', 'bufcons', 'bufconsx', 'bfree', 'bfreeall')
+BUF_ALLOC_OPS = ('buf', 'bufnc', 'bufx', 'bufna', 'bufcons', 'bufconsx', 'bfree', 'bfreeall')
 
 
 class Boom(Exception):
